@@ -152,6 +152,9 @@ struct LedgerOp {
     action: usize,
     sop: SOp,
     status: LStatus,
+    /// how many versions of the chain the replica had seen when it committed this
+    /// (index of its base version + 1; 0 for the nil version)
+    base_len: usize,
 }
 
 pub(crate) struct World {
@@ -360,8 +363,9 @@ pub(crate) async fn commit_ops(n: usize, a: usize, w: &Rc<RefCell<World>>, repli
         ws_after_commit(&mut wb, n, a, &before, &after);
     }
     let status = if applied { LStatus::Committed } else { LStatus::Failed };
+    let base_len = wb.server.borrow().chain.index_of(before.base_version).map(|i| i + 1).unwrap_or(0);
     for s in sops {
-        wb.ledger[n].push(LedgerOp { action: a, sop: s, status: status.clone() });
+        wb.ledger[n].push(LedgerOp { action: a, sop: s, status: status.clone(), base_len });
     }
     wb.log(|| format!("n{n} a{a} commit {} ops -> {:?} applied={applied}", all_ops.len(), r.as_ref().map_err(|e| e.to_string())));
 }
@@ -613,8 +617,10 @@ fn do_foreign(n: usize, a: usize, w: &Rc<RefCell<World>>, intents: &[Intent], fm
                             task.remove(&prop);
                         }
                     }
-                    let digits = *rng.pick(&[0u32, 3, 6, 9]);
+                    let digits = *rng.pick(&[0u32, 1, 3, 6, 9]);
                     let nanos = (rng.below(1_000_000_000)) as u32;
+                    let unit = wb.sc.ts_unit_ms as i64;
+                    let ts = &(if unit == 0 { *ts } else { (*ts * unit).div_euclid(1000) });
                     let mut fields = vec![
                         format!("\"uuid\"{}:{}\"{}\"", ws(&mut rng), ws(&mut rng), u),
                         format!("\"property\":{}", json_str(&prop, esc)),
@@ -858,7 +864,8 @@ async fn do_expire(n: usize, a: usize, w: &Rc<RefCell<World>>, replica: &mut Rep
             }
             for u in &expect_gone {
                 wb.expired.insert(*u);
-                wb.ledger[n].push(LedgerOp { action: a, sop: SOp::Delete { uuid: *u }, status: LStatus::Committed });
+                let base_len = wb.server.borrow().chain.index_of(before.base_version).map(|i| i + 1).unwrap_or(0);
+                wb.ledger[n].push(LedgerOp { action: a, sop: SOp::Delete { uuid: *u }, status: LStatus::Committed, base_len });
             }
             if !expect_gone.is_empty() {
                 wb.probe("expire.purged");
@@ -1718,7 +1725,7 @@ pub fn gen_c14(seed: u64, i: u64, _thorough: bool) -> Value {
         style: rng.below(2) as u8,
         late: 0,
         sqlite: false,
-        ts_unit_ms: 0,
+        ts_unit_ms: *rng.pick(&[0u32, 250, 100, 1]),
         kill_budget: 0,
     };
     serde_json::to_value(sc).unwrap()
@@ -2747,6 +2754,37 @@ fn conservation(wb: &mut World) {
                     if occ.len() > 1 {
                         wb.violation("conservation", "twice", format!("update {} of node {n} appears {} times in the server's versions", trunc(val), occ.len()));
                     } else if occ.len() == 1 {
+                        // "a concurrent update of the same property with a later timestamp wins": this
+                        // update must not follow, in the chain, a strictly later-timestamped update of
+                        // another origin that the replica had not seen when it made its own (only
+                        // judged when this is the replica's sole pending change to that task's
+                        // property and it neither created nor deleted the task meanwhile)
+                        let alone = l.iter().filter(|o| o.base_len == e.base_len && o.status == LStatus::Committed).all(|o| match &o.sop {
+                            SOp::Update { uuid: u2, property: p2, value: v2, .. } => !(u2 == uuid && p2 == property) || v2.as_ref() == Some(val),
+                            SOp::Create { uuid: u2 } | SOp::Delete { uuid: u2 } => u2 != uuid,
+                        });
+                        if alone {
+                            let my_pos = (occ[0].1, occ[0].2);
+                            let k = ts_key(ts);
+                            for (vi, v) in sw.chain.versions.iter().enumerate() {
+                                if vi < e.base_len || v.origin == n {
+                                    continue;
+                                }
+                                if let Some(ops) = &v.ops {
+                                    for (oi, op) in ops.iter().enumerate() {
+                                        if let SOp::Update { uuid: u2, property: p2, value: v2, ts: t2 } = op {
+                                            if u2 == uuid && p2 == property && (vi, oi) < my_pos && ts_key(t2) > k && v2.as_ref() != Some(val) {
+                                                wb.violation(
+                                                    "winner",
+                                                    "earlier-overrode-later",
+                                                    format!("update {} of node {n} (timestamp {ts}) was sent after the concurrent update {:?} (timestamp {t2}) of {} that it had not seen: the earlier-timestamped change overrides the later one", trunc(val), v2.as_ref().map(|x| trunc(x)), if v.origin == usize::MAX { "a foreign client".to_string() } else { format!("node {}", v.origin) }),
+                                                );
+                                            }
+                                        }
+                                    }
+                                }
+                            }
+                        }
                         if occ[0].0 != n {
                             wb.violation("conservation", "origin", format!("update {} of node {n} was sent by node {}", trunc(val), occ[0].0));
                         }
